@@ -54,7 +54,11 @@ def members(rng):
         "binlen256": [u(256), bb(256), b"T" + struct.pack("<i", 256) + b"f" * 256 + b"."],
         "binlen65536": [u(65535), u(65536), bb(65536)],
         "ints": [b"K\x00.", b"K\xff.", b"M\x00\x01.", b"M\xff\xff.", b"J\x00\x00\x00\x80.", b"J\xff\xff\xff\x7f.",
-                 b"\x8a\x00.", b"\x8a\x01\x80.", b"\x8a\x08" + b"\xff" * 7 + b"\x7f.", b"\x8b\x02\x00\x00\x00\x00\x80.", b"G?\xf8\x00\x00\x00\x00\x00\x00."],
+                 b"\x8a\x00.", b"\x8a\x01\x80.", b"\x8a\x08" + b"\xff" * 7 + b"\x7f.", b"\x8b\x02\x00\x00\x00\x00\x80.", b"G?\xf8\x00\x00\x00\x00\x00\x00.",
+                 # floats whose value is special under comparison: NaN (quiet, negative, with a payload), infinities, -0.0
+                 b"G\x7f\xf8\x00\x00\x00\x00\x00\x00.", b"G\xff\xf8\x00\x00\x00\x00\x00\x01.", b"G\x7f\xf0\x00\x00\x00\x00\x00\x00.",
+                 b"G\x80\x00\x00\x00\x00\x00\x00\x00.", pickle.dumps([float("nan"), 1.5, {"k": float("nan")}], 2),
+                 pickle.dumps((float("nan"), float("-inf")), 4)],
         "memo": [b"]q\x00h\x00.", b"]p7\ng7\n.", b"]r\x00\x01\x00\x00j\x00\x01\x00\x00.", b"\x80\x04]\x94h\x00.", b"(K\x01K\x022q\x050."],
         "globals": [b"cos\nsystem\n.", b"cpkg.sub\nf\n.", b"(K\x01imod\nCls\n.", b"\x80\x04\x8c\x02os\x8c\x06system\x93.",
                     b"c__builtin__\nset\n(]K\x01atR."],
